@@ -115,9 +115,7 @@ def validate(seed, tier):
         m, n = rng.integers(1, 5), rng.integers(1, 5)
         q0 = rng.integers(-1, 2, size=m); q1 = rng.integers(-1, 2, size=n)
         A = np.where(np.add.outer(q0, -q1) == 0, rng.standard_normal((m, n)), 0.0)
-        fails = concrete.check_qr(dict(A=A.tolist(), q0=q0.tolist(), q1=q1.tolist()))
-        if fails:
-            raise runner.HarnessError(f'real qr fails concrete check on random input: {fails}')
+        runner.concrete_check('qr', dict(A=A.tolist(), q0=q0.tolist(), q1=q1.tolist()))
 
         def shimmed(eng):
             Ao = shims.to_object(A)
